@@ -56,10 +56,12 @@ ASSUMPTIONS = [
     "show_diagram (DFA / NFA / GNFA / DPDA / NPDA) cannot be exercised here: pygraphviz / coloraide are not installed, the method raises ImportError before touching the automaton; that it leaves its operand unchanged is therefore NOT observed by the histories",
     "an exception inside a history that is not a documented refusal (AutomatonException subclasses; NotImplementedError of GNFA readers; ValueError of DFA.random_word) is reported as a failure",
 ]
-EXPLANATION = ("Theorems C18_* prove for the model: freeze leaves no mutable container in supported values, preserves the "
-               "abstract value, is idempotent; setattr/delattr always raise AttributeError; for every class the public "
-               "slots are exactly the __init__ parameters (regenerated tables) and copy/pickle return an object of the "
-               "same class with identical input_parameters. The monitored part (B) observes the real objects.")
+EXPLANATION = ("Theorems C18_* prove for the model: freeze (tuples entered, fix 3900daf) leaves no mutable container in any value "
+               "whose dict keys / set elements are hashable (every value Python can build), preserves the abstract value, is "
+               "idempotent; setattr/delattr raise AttributeError because the regenerated AST shape of the two hooks is a single "
+               "unconditional raise; for every class the public slots are exactly the __init__ parameters (regenerated tables, "
+               "defaults included) and copy/pickle return an object of the same class with identical input_parameters that "
+               "passes the constructor's validation again. The monitored part (B) observes the real objects.")
 TRUSTED_EXTRA = ["harness/monitor.py tracked containers (part B is observation, level 'other')"]
 
 DRV = "drv_misc"
